@@ -438,6 +438,14 @@ def rule_LAY(FA):
                 if t['f']['fn']['name'] == 'new' and 'PrefetchSupport' in t['f']['fn']['path'] and len(t['args']) == 2:
                     k = norm(F.operand_term(t['args'][1]))
                     n_pfs += 1
+                    # the shift the READER applies is what the constructor stores from that argument (`sample_rate.ilog2()`
+                    # of an argument that callers still pass as a logarithm stores log2(11) = 3)
+                    k_eff = _effective_shift(FA, t['f']['fn'], k)
+                    if k_eff is None:
+                        out.append(Inst('R-LAY', 'R-LAY|overhead|prefetch support %s%s' % (base.split('::')[-1], spec_key(spec)), 'note', t['line'],
+                                        'the sampling shift stored by PrefetchSupport::new for the argument `%s` is computed in a way the rule does not evaluate: overhead not decided' % show(k), ['C14', 'C09'], nontrivial=False))
+                        continue
+                    k = ('const', k_eff) if k[0] == 'const' else k
                     ok = k[0] == 'const' and k[1] >= 10
                     ratio = (4 * 1.25) / ((1 << k[1]) * 2) if k[0] == 'const' else 1
                     out.append(Inst('R-LAY', 'R-LAY|overhead|prefetch support %s%s' % (base.split('::')[-1], spec_key(spec)), 'ok' if ok else 'violation', t['line'],
@@ -445,6 +453,73 @@ def rule_LAY(FA):
     if n_pfs == 0:
         out.append(Inst('R-LAY', 'R-LAY|overhead|prefetch support', 'violation', '', 'no PrefetchSupport::new call found (anchor lost)', ['C14']))
     return out
+
+
+def _effective_shift(FA, callee, arg):
+    """value of the field that `approx_rank_unchecked` shifts positions by, as stored by the constructor for a constant argument"""
+    if arg[:1] != ('const',):
+        return arg[1] if len(arg) > 1 and isinstance(arg[1], int) else 0
+    g = next(iter(FA.resolve(callee)), None)
+    rd = next((h for h in FA.lib_fns(include_closures=False) if h['name'] == 'approx_rank_unchecked' and h.get('_base') == (g or {}).get('_base')), None)
+    if g is None or rd is None:
+        return None
+    R = FA.fn(rd)
+    shf = None
+    for bi, b in enumerate(R.blocks):
+        for s_ in b['s']:
+            rv = s_.get('rv')
+            if rv and rv['k'] == 'bin' and rv['op'].replace('Unchecked', '') == 'Shr':
+                a = strip_casts(norm(R.operand_term(rv['b'])))
+                if a[:1] == ('field',) and a[1] == ('param', 'self'):
+                    shf = a[2]
+    if shf is None:
+        return None
+    adt = FA.adts.get(g['_base']) or {}
+    names = [x['name'] for x in adt.get('fields', [])]
+    if shf not in names:
+        return None
+    G = FA.fn(g)
+    G.dom()
+    owner = FA.canon_type(g['_base']) or g['_base']
+    pname = ('param', g['names'].get('2', '_2'))
+    for bi, b in enumerate(G.blocks):
+        if bi not in G.reach:
+            continue
+        for s_ in b['s']:
+            rv = s_['rv']
+            if rv['k'] == 'agg' and rv['kind'].get('adt') == owner and names.index(shf) < len(rv['ops']):
+                t = strip_casts(norm(G.operand_term(rv['ops'][names.index(shf)])))
+                return _eval_const_fn(t, pname, arg[1])
+    return None
+
+
+def _eval_const_fn(t, pname, val):
+    t = strip_casts(t)
+    if t == pname:
+        return val
+    if not isinstance(t, tuple) or not t:
+        return None
+    if t[0] == 'const' and isinstance(t[1], int):
+        return t[1]
+    if t[0] == 'call' and len(t[2]) == 1:
+        a = _eval_const_fn(t[2][0], pname, val)
+        nm = t[1].split('::')[-1]
+        if a is None or a <= 0:
+            return None
+        if nm in ('ilog2', 'checked_ilog2'):
+            return a.bit_length() - 1
+        if nm == 'trailing_zeros':
+            return (a & -a).bit_length() - 1
+        return None
+    if t[0] == 'bin' and t[1] in ('Add', 'Sub', 'Shl', 'Shr', 'Mul'):
+        a, b = _eval_const_fn(t[2], pname, val), _eval_const_fn(t[3], pname, val)
+        if a is None or b is None:
+            return None
+        try:
+            return {'Add': a + b, 'Sub': a - b, 'Shl': a << b, 'Shr': a >> b, 'Mul': a * b}[t[1]]
+        except Exception:
+            return None
+    return None
 
 
 def _p2(n):
